@@ -246,7 +246,7 @@ def plan(tier):
     sweep = [{"kind": "timefmt", "part": i, "parts": 4} for i in range(4)]
     if tier == "quick":
         return sweep + [{"n": 90, "depth": 3}] * 16
-    return sweep + [{"n": 1500, "depth": 3}] * 32 + [{"n": 700, "depth": 5}] * 16
+    return sweep + [{"n": 300, "depth": 3}] * 32 + [{"n": 100, "depth": 5}] * 16
 
 
 def run_shard(spec, seed, res, only_bucket=None):
